@@ -260,6 +260,10 @@ def run_program(cfg, ops, res, device_every=1, stop_after=None):
     for ln in init_lines(w, keys):
         drv.ask(ln)
     i0 = drv.ask("fs dump")
+    count = w.fs.fs._get_cluster_count()
+    want_check = count <= 5000          # the checker's "every other cluster is free" clause is quadratic
+    c0 = drv.ask("fs check %d" % count) if want_check else None
+    checks = []
     reals = [(real_state(w, keys), device_state(w, keys))]
     results = []
     idx = []
@@ -272,6 +276,8 @@ def run_program(cfg, ops, res, device_every=1, stop_after=None):
             a = drv.ask(op_line(op, keys))
             b = drv.ask("fs dump")
             idx.append((a, b))
+            if want_check:
+                checks.append((i, drv.ask("fs check %d" % count)))
             dev = device_state(w, keys) if (i % device_every == 0 or r.startswith("err")) else None
             reals.append((real_state(w, keys), dev))
     finally:
@@ -284,7 +290,15 @@ def run_program(cfg, ops, res, device_every=1, stop_after=None):
     else:
         for what, m, im in compare(d0, reals[0][0], reals[0][1]):
             divs.append((-1, "init:" + what, m, im))
-    stats = {"ops": len(results), "err": {}}
+    # the hypotheses of the theorems (Inv, Shape, Sync) on the states actually visited
+    if c0 is not None and out[c0] != "ok":
+        divs.append((-1, "hypotheses-of-the-theorems(initial state)", out[c0], "ok"))
+    for i, ci in checks:
+        if out[ci] != "ok":
+            divs.append((i, "hypotheses-of-the-theorems", out[ci], "ok"))
+            break
+    divs.sort(key=lambda d: d[0])
+    stats = {"ops": len(results), "err": {}, "inv_checked": (1 if c0 is not None else 0) + len(checks)}
     for i, (a, b) in enumerate(idx):
         ans = out[a]
         model_res, _, spec_res = ans.partition(" spec=")
@@ -567,6 +581,7 @@ def run(tier):
         res.case("%s:cfg%d:%s" % (tag, ci, ",".join(sorted({o[0] for o in ops}))))
         res.count("programs")
         res.count("ops", stats["ops"])
+        res.count("states-checked-against-Inv/Shape/Sync", stats.get("inv_checked", 0))
         res.count("cfg%d(fat%d,bpc%d)" % (ci, geo[ci][2], geo[ci][0]))
         for k, v in stats["err"].items():
             res.count("err:" + k, v)
